@@ -172,6 +172,16 @@ func (s *WriterOffline) Close() error {
 		return fmt.Errorf("error while merging: %w", err)
 	}
 
+	if len(s.segIDs) == 0 {
+		// nothing was indexed: record an empty snapshot so that the
+		// (empty) index can be opened by readers and writers
+		err = s.directory.Persist(ItemKindSnapshot, 0, &Snapshot{}, nil)
+		if err != nil {
+			return fmt.Errorf("error recording snapshot: %w", err)
+		}
+		return nil
+	}
+
 	// open the merged segment
 	data, closer, err := s.directory.Load(ItemKindSegment, s.segIDs[0])
 	if err != nil {
